@@ -1,5 +1,6 @@
 //! Small directory decoders (C15): debug, TLS, load config, exception, security.
 //!   debug <k> dump | tls <k> dump | loadcfg <k> dump | exc <k> dump | exc <k> lookup <pc> | security <k> dump | dirs_layout
+//!   pogo_hist <hex> <history>
 //! References print as off:len relative to the buffer, strings as hex, values decimal.
 //! Sub-results inside a dump line: `off:len…` when ok, `!ErrorKind` when not.
 use crate::ops_img::tref;
@@ -170,6 +171,39 @@ fn layout() -> String {
 		size_of::<pelite::pe32::Va>(), align_of::<pelite::pe32::Va>(), size_of::<pelite::pe64::Va>(), align_of::<pelite::pe64::Va>())
 }
 
+/// pogo_hist <hex> <history>   history = comma list of next | nth:K | count | hint | clone (as relocs_hist):
+/// the calls run on the `PgoIter` of a `Pgo` over the data (whole dwords, dword aligned, flush against the guard page)
+fn pogo_hist(rest: &str) -> String {
+	use pelite::pe64::debug::{Pgo, PgoItem};
+	let a: Vec<&str> = rest.trim().split(' ').collect();
+	if a.len() != 2 { return "bad-op".to_string(); }
+	let raw = unhex(a[0]);
+	let n = raw.len() / 4 * 4;
+	let g = Guarded::new(&raw[..n], (16 - n % 16) % 16, true);
+	let bytes = g.bytes();
+	let image: &[u32] = unsafe { std::slice::from_raw_parts(bytes.as_ptr() as *const u32, n / 4) };
+	let pgo = Pgo { image };
+	let fmt = |it: &PgoItem| format!("{}:{}:{}", it.rva, it.size, cs(&g, it.name));
+	let item = |o: Option<PgoItem>| o.map(|it| fmt(&it)).unwrap_or_else(|| "None".to_string());
+	let mut it = pgo.iter();
+	let mut res = Vec::new();
+	for h in a[1].split(',') {
+		match h {
+			"next" => res.push(item(it.next())),
+			"count" => res.push(it.clone().count().to_string()),
+			"hint" => { let (lo, hi) = it.size_hint(); res.push(format!("{}..{}", lo, hi.map_or("None".to_string(), |h| h.to_string()))); },
+			"clone" => { it = it.clone(); res.push(format!("[{}]", it.clone().map(|x| fmt(&x)).collect::<Vec<_>>().join(","))); },
+			_ if h.starts_with("nth:") => res.push(item(it.nth(num(&h[4..]) as usize))),
+			_ => {},
+		}
+	}
+	// fused: drain, then keep asking
+	let mut k = 0usize;
+	while it.next().is_some() { k += 1; if k > n + 2 { return "diverge".to_string(); } }
+	let fused = it.next().is_none() && it.next().is_none();
+	format!("ok {} fused={}", res.join(";"), fused as u8)
+}
+
 pub fn dispatch(st: &mut State, fam: &str, rest: &str) -> Option<String> {
 	let a: Vec<&str> = rest.split(' ').collect();
 	Some(match (fam, a.len()) {
@@ -180,6 +214,7 @@ pub fn dispatch(st: &mut State, fam: &str, rest: &str) -> Option<String> {
 		("exc", 3) if a[1] == "lookup" => exc_lookup(st, a[0], num(a[2]) as u32),
 		("security", 2) if a[1] == "dump" => security_dump(st, a[0]),
 		("dirs_layout", _) => layout(),
+		("pogo_hist", _) => pogo_hist(rest),
 		("debug", _) | ("tls", _) | ("loadcfg", _) | ("exc", _) | ("security", _) => "bad-op".to_string(),
 		_ => return None,
 	})
